@@ -76,7 +76,19 @@ def gen_src(rng, exact=True, nd=None, nmax=6, typed=False, plain=False):
     for a in range(nd):
         if rng.random() < 0.3:
             p1[a], p2[a] = p2[a], p1[a]
-    dims = rng.sample(NAMES, nd) if rng.random() < 0.4 else default_dims(nd)
+    r_ = rng.random()
+    if r_ < 0.3:
+        dims = rng.sample(NAMES, nd)
+    elif r_ < 0.5:
+        # names equal up to case, contained in one another, attribute-like, multi-character: the axis acted on
+        # is the one with EXACTLY the name given
+        fam = rng.choice([["x", "X", "t", "T"], ["a", "A", "aa", "Aa"], ["n", "N", "y", "Y"], ["x", "xy", "y", "xyz"],
+                          ["V", "n", "cell", "pmin"], ["Z", "z", "zz", "x"], ["long_name", "Long_Name", "other", "o"]])
+        dims = fam[:nd]
+        if rng.random() < 0.5:
+            rng.shuffle(dims)
+    else:
+        dims = default_dims(nd)
     tf = F(1, 2 ** rng.choice([20, 30, 40])) if exact and rng.random() < 0.7 else F(1e-12)
     cell = [(h - l) / k for l, h, k in zip(lo, hi, n)]
     subs = []
@@ -545,9 +557,133 @@ def gen_stateful(rng, tier):
             for j in range(cnt)]
 
 
+# ------------------------------------------------------------------ directed core (identical in every run)
+def dsrc(p1, p2, n, dims=None, subs=(), nvdim=1, vals=None, valid=None, exact=True, tf=None, ty=None, shift=0):
+    nd = len(n)
+    ncell = math.prod(n)
+    if vals is None:
+        vals = [[shift + cid + 1 + 100 * k for k in range(nvdim)] for cid in range(ncell)]
+    if valid is None:
+        valid = [cid % 3 != 1 for cid in range(ncell)]
+    ty_ = dict(corner="float", ntype="list", by="n", subcorner="float", vdtype="float")
+    ty_.update(ty or {})
+    return dict(exact=exact, p1=[S(x) for x in p1], p2=[S(x) for x in p2], n=list(n),
+                tf=S(tf if tf is not None else (F(1, 2 ** 40) if exact else F(1e-12))),
+                dims=list(dims) if dims else default_dims(nd),
+                subs=[[k, [S(x) for x in a], [S(x) for x in b]] for k, a, b in subs], nvdim=nvdim,
+                vals=[[S(v) for v in row] for row in vals], valid=list(valid), ty=ty_, cplx=False)
+
+
+def directed_core():
+    """one small fixed group of cases per mechanism that a seeded change of rounds a-e exercised; independent of
+    tier and seed"""
+    Q = F
+    C = []
+
+    def pt(s, a, x, tag, xt="float"):
+        C.append(dict(kind="sel", src=s, a=a, arg=dict(t="point", x=S(x), xt=xt), cls="core-" + tag))
+
+    def rg(s, a, x1, x2, tag, form="tuple", xt="float"):
+        C.append(dict(kind="sel", src=s, a=a, cls="core-" + tag,
+                      arg=dict(t="range", x1=S(x1), x2=S(x2), xt=xt, xt2=xt, form=form)))
+
+    def ctr(s, a, tag):
+        C.append(dict(kind="sel", src=s, a=a, arg=dict(t="centre"), cls="core-" + tag))
+
+    def rs(s, nn, tag, nt="tuple"):
+        C.append(dict(kind="resample", src=s, nn=list(nn), cls="core-" + tag, nt=nt))
+
+    # a1: integer-typed corners, fractional cells, non-integer coordinates
+    for corner in ("int", "npint"):
+        s = dsrc([0, 0], [4, 3], [8, 6], ty=dict(corner=corner, ntype="tuple", subcorner="int"),
+                 subs=[("left", [0, 0], [2, 3])])
+        pt(s, 0, Q(7, 4), "a1")
+        pt(s, 1, Q(5, 4), "a1", xt="npfloat")
+        pt(s, 0, Q(7, 4), "a1", xt="npfloat32")
+        rg(s, 0, Q(7, 4), Q(11, 4), "a1")
+        rg(s, 1, Q(3, 4), Q(9, 4), "a1", form="list")
+    # a2: vertex-aligned boxes whose coordinates are not representable (scale regime)
+    s = dsrc([0.0, 0.0], [1.0, 0.5], [10, 5], exact=False)
+    for q1, q2 in (([0.3, 0.1], [0.6, 0.4]), ([0.7, 0.2], [0.9, 0.3]), ([0.6, 0.3], [0.7, 0.4])):
+        C.append(dict(kind="blockscale", src=s, bk=1, a=0, q1=[S(x) for x in q1], q2=[S(x) for x in q2], cls="core-a2"))
+    s = dsrc([0.0], [100e-9], [20], exact=False)
+    for q1, q2 in ((30e-9, 55e-9), (35e-9, 60e-9), (55e-9, 70e-9)):
+        C.append(dict(kind="blockscale", src=s, bk=1, a=0, q1=[S(q1)], q2=[S(q2)], cls="core-a2"))
+    # a3: validity that is not "value != 0" survives resampling
+    s = dsrc([0, 0], [4, 2], [4, 2], vals=[[0], [5], [7], [0], [3], [0], [9], [2]],
+             valid=[True, False, True, False, True, True, False, True])
+    for nn in ([4, 2], [8, 4], [2, 1], [3, 2]):
+        rs(s, nn, "a3")
+    # b1: default (central) plane on axes with 3, 7 cells
+    s = dsrc([0, 0], [3, 7], [3, 7])
+    ctr(s, 0, "b1"), ctr(s, 1, "b1")
+    s = dsrc([-1, 2, 0], [6, 5, 2], [7, 3, 2], nvdim=2)
+    ctr(s, 0, "b1"), ctr(s, 1, "b1"), ctr(s, 2, "b1")
+    # b2 / c3: padding modes and the arguments completing them; validity varies next to the boundary
+    s = dsrc([0, 0], [5, 3], [5, 3], nvdim=2, valid=[c_ % 2 == 0 for c_ in range(15)])
+    for md in ("symmetric", "reflect", "wrap", "edge", "constant"):
+        C.append(dict(kind="pad", src=s, pw=[[2, 3], [0, 0]], axes=[0], mode=md, cls="core-b2", wt="tuple"))
+        C.append(dict(kind="pad", src=s, pw=[[0, 0], [3, 2]], axes=[1], mode=md, cls="core-b2", wt="list"))
+    for md, kw in (("constant", dict(constant_values=5)), ("constant", dict(constant_values=[2, -3])),
+                   ("reflect", dict(reflect_type="odd")), ("symmetric", dict(reflect_type="odd")),
+                   ("mean", dict(stat_length=2)), ("maximum", dict(stat_length=[1, 2])), ("median", dict(stat_length=3)),
+                   ("linear_ramp", dict(end_values=7)), ("linear_ramp", dict(end_values=[3, -2]))):
+        C.append(dict(kind="padkw", src=s, pw=[[2, 1], [0, 2]], axes=[0, 1], mode=md, kw=kw, cls="core-c3"))
+    # b3 / d2: boxes whose lower corner lies in the upper half of a cell; boxes sticking out above
+    s = dsrc([0, 0], [4, 3], [4, 3], nvdim=2, subs=[("top", [0, 2], [4, 3])])
+    for q1, q2 in (([Q(3, 4), Q(3, 2)], [Q(9, 4), Q(11, 4)]), ([Q(1, 2), Q(7, 8)], [Q(3), Q(2)]),
+                   ([Q(15, 8), Q(5, 8)], [Q(2), Q(3, 4)])):
+        C.append(dict(kind="getregion", src=s, q1=[S(x) for x in q1], q2=[S(x) for x in q2], cls="core-b3", qt="float"))
+    for q1, q2 in (([1, 1], [5, 3]), ([2, 0], [4, 4]), ([3, 2], [6, 5]), ([0, 0], [Q(19, 4), 3])):
+        C.append(dict(kind="slices", src=s, q1=[S(x) for x in q1], q2=[S(x) for x in q2], cls="core-d2", qt="float"))
+        C.append(dict(kind="getregion", src=s, q1=[S(x) for x in q1], q2=[S(x) for x in q2], cls="core-d2", qt="float"))
+    # c2 / d3: ranges spelled (upper, lower); planes exactly on the upper face
+    rg(s, 0, Q(11, 4), Q(3, 4), "c2"), rg(s, 1, Q(5, 2), Q(1, 2), "c2", form="list"), rg(s, 0, 4, 0, "c2", form="array")
+    pt(s, 0, 4, "d3"), pt(s, 1, 3, "d3"), pt(s, 0, 0, "d3"), rg(s, 1, Q(1, 2), 3, "d3")
+    # c1: midpoints used, Region object changed in place behind the mesh's back, then resampled / selected
+    s = dsrc([0, 0], [4, 3], [4, 3], nvdim=2)
+    for steps in ([dict(op="translate", on="region", v=[S(3), S(-2)])],
+                  [dict(op="scale", on="region", f=S(2), ref=None)],
+                  [dict(op="scale", on="region", f=[S(2), S(Q(1, 2))], ref=[S(0), S(0)]), dict(op="validflip", idx=[1, 1])]):
+        for j, pk in enumerate(["resample", "resample", "resample", "sel", "getregion", "pad"]):
+            C.append(dict(kind="stateful", src=s, steps=steps, seed=424242, pick=j, pick_kind=pk))
+    # d1 / e1: target centres exactly on source boundaries; whole-number coarsening by 3 and more
+    s1 = dsrc([0], [8], [8])
+    s2 = dsrc([-1, 0], [5, 9], [6, 9], nvdim=2)
+    for nn in ([4], [2], [1]):
+        rs(s1, nn, "d1")
+    for nn in ([3, 9], [2, 3], [6, 3], [1, 1], [2, 9], [3, 3], [4, 6]):
+        rs(s2, nn, "d1e1", nt="list")
+    C.append(dict(kind="fromfield", src=s1, q1=[S(0)], q2=[S(8)], nn=[4], cls="core-d1"))
+    C.append(dict(kind="fromfield", src=s2, q1=[S(-1), S(0)], q2=[S(5), S(9)], nn=[3, 3], cls="core-d1"))
+    C.append(dict(kind="fromfield", src=s2, q1=[S(1), S(3)], q2=[S(5), S(9)], nn=[2, 3], cls="core-d1"))
+    # e2: dimension names that differ only in case / contain one another: the axis with EXACTLY that name
+    for dims in (["x", "X", "t"], ["X", "x", "t"], ["n", "xy", "N"]):
+        s = dsrc([0, 10, -2], [4, 13, 0], [4, 3, 2], dims=dims, subs=[("low", [0, 10, -2], [2, 13, 0])])
+        for a in (1, 0, 2):
+            lo_a, hi_a = [0, 10, -2][a], [4, 13, 0][a]
+            ctr(s, a, "e2"), pt(s, a, lo_a + Q(5, 4), "e2"), rg(s, a, lo_a + Q(1, 4), hi_a - Q(1, 4), "e2")
+            C.append(dict(kind="pad", src=s, pw=[[2, 1] if b == a else [0, 0] for b in range(3)], axes=[a],
+                          mode="symmetric", cls="core-e2", wt="tuple"))
+        rs(s, [2, 6, 1], "e2")
+        C.append(dict(kind="getregion", src=s, q1=[S(1), S(11), S(-1)], q2=[S(3), S(12), S(0)], cls="core-e2", qt="float"))
+        C.append(dict(kind="slices", src=s, q1=[S(1), S(11), S(-1)], q2=[S(3), S(12), S(0)], cls="core-e2", qt="float"))
+        C.append(dict(kind="getname", src=s, name="low", cls="present"))
+    s = dsrc([0, 5], [2, 8], [2, 3], dims=["a", "A"])
+    ctr(s, 1, "e2"), pt(s, 1, Q(13, 2), "e2"), rg(s, 1, Q(11, 2), Q(15, 2), "e2")
+    C.append(dict(kind="pad", src=s, pw=[[0, 0], [1, 2]], axes=[1], mode="edge", cls="core-e2", wt="list"))
+    # e3: integer dtypes beyond 2**53 keep their values through every operation
+    s = dsrc([0, 0], [4, 3], [4, 3], subs=[("a", [0, 0], [2, 3])], ty=dict(vdtype="bigint"), shift=2 ** 62)
+    C.append(dict(kind="getname", src=s, name="a", cls="present"))
+    C.append(dict(kind="getregion", src=s, q1=[S(1), S(1)], q2=[S(3), S(2)], cls="core-e3", qt="float"))
+    pt(s, 0, Q(3, 2), "e3"), rg(s, 0, Q(1, 2), Q(5, 2), "e3"), rs(s, [2, 3], "e3")
+    C.append(dict(kind="pad", src=s, pw=[[1, 1], [0, 0]], axes=[0], mode="edge", cls="core-e3", wt="tuple"))
+    return C
+
+
 def generate(rng, tier):
-    nf = 24 if tier == "quick" else 100
-    cases = []
+    nf = 20 if tier == "quick" else 90
+    cases = directed_core()
     for k in range(nf):
         s = gen_src(rng, exact=True, nd=(k % 4) + 1 if k < 8 else None, nmax=6 if tier == "quick" else 8)
         cases += gen_ops(rng, s, tier)
